@@ -1079,3 +1079,12 @@ def untraced():
         except Exception:  # noqa: BLE001
             pass
     return _Null()
+
+
+def fork_int(v: Any, lo: int, hi: int) -> int:
+    """Concrete value of a (possibly symbolic) int known to lie in lo..hi, by explicit forks so that the solver
+    enumerates it (one path per value)."""
+    for k in range(lo, hi):
+        if v == k:
+            return k
+    return hi
